@@ -147,7 +147,9 @@ def replay_one(job):
 # ---------------------------------------------------------------------------- the check
 def _tlc_jobs(tier):
     if tier == "quick":
-        return [("Translate_quick", "Translate", "cfg/Translate_quick.cfg", {"workers": 4, "timeout": 600})]
+        return [("Translate_quick", "Translate", "cfg/Translate_quick.cfg", {"workers": 4, "timeout": 600}),
+                ("Translate_quick_lit_tag", "Translate", gen_cfg("cfg/Translate_thorough.tmpl", dict(Route="tag", MaxS=3, MaxP=1, MaxC=0, MaxB=0, Alphabet="lit"), "qlit"),
+                 {"workers": 2, "timeout": 600})]
     jobs = []
 
     def add(tag, r, **consts):
@@ -160,7 +162,7 @@ def _tlc_jobs(tier):
         add("full", r, MaxS=3, MaxP=3, MaxC=2, MaxB=2, Alphabet="full")
     for r in ("tag", "gettext", "t"):                    # deeper messages over the percent-related atoms
         add("pct", r, MaxS=5, MaxP=4, MaxC=0, MaxB=1, Alphabet="pct")
-    add("lit", "tag", MaxS=3, MaxP=1, MaxC=0, MaxB=0, Alphabet="lit")   # + literal %(y)s text in a block (unclaimed cells)
+    add("lit", "tag", MaxS=3, MaxP=1, MaxC=0, MaxB=0, Alphabet="lit")   # + literal %(y)s text in a block
     return jobs
 
 
